@@ -26,16 +26,21 @@ import (
 
 func uniformValue(seq int) uint16 { return uint16(1000 + (seq*37)%60000) }
 
-// seqFromUniform inverts uniformValue for seq < 60000/… by search in a window.
-func seqNear(v uint16, around int) int {
-	for d := 0; d < 2000; d++ {
-		for _, s := range []int{around - d, around + d} {
-			if s >= 1 && uniformValue(s) == v {
-				return s
-			}
+// seqOfUniform inverts uniformValue exactly (37 is invertible modulo 60000 and
+// every run uses fewer than 60000 frames). A request can be descheduled for
+// thousands of frames, so no search window around the call time is assumed.
+func seqOfUniform(v uint16) int {
+	if v < 1000 || int(v) >= 61000 {
+		return -1
+	}
+	inv := 0
+	for k := 1; k < 60000; k++ {
+		if (k*37)%60000 == 1 {
+			inv = k
+			break
 		}
 	}
-	return -1
+	return ((int(v) - 1000) * inv) % 60000
 }
 
 type c16Log struct {
@@ -374,9 +379,9 @@ func TestVerif_C16(t *testing.T) {
 					c.Violation("snapshot-mixes-two-frames", "", fmt.Sprintf("returned image is not uniform (first pixel %d): a mixture of frames", r.Value))
 					continue
 				}
-				id := seqNear(r.Value, int(r.ProcAtCall))
-				if id < 0 {
-					c.Violation("snapshot-unknown-frame", "", fmt.Sprintf("returned value %d matches no frame near %d", r.Value, r.ProcAtCall))
+				id := seqOfUniform(r.Value)
+				if id < 1 || id >= seq {
+					c.Violation("snapshot-unknown-frame", "", fmt.Sprintf("returned uniform value %d is not the value of any frame sent (1..%d)", r.Value, seq-1))
 					continue
 				}
 				if r.FrameCount != id {
